@@ -25,6 +25,8 @@ PdoStart(pr, period) ==
       IF p = 0 THEN [ok |-> FALSE, pr |-> [pr EXCEPT !.pdo = Off]]
       ELSE [ok |-> TRUE, pr |-> [pr EXCEPT !.pdoPeriod = p, !.pdo = Task(pr.pdoId, pr.pdoData, p, FALSE)]]
 PdoStop(pr) == [pr EXCEPT !.pdo = Off]
+\* the COB-ID attribute changes; a running task keeps its frame until the next (re)start
+PdoSetCob(pr, id) == [pr EXCEPT !.pdoId = id]
 PdoSetData(pr, d) == [pr EXCEPT !.pdoData = d,
                                !.pdo = IF pr.pdo = Off THEN Off ELSE [pr.pdo EXCEPT !.d = d]]
 
